@@ -403,6 +403,10 @@ struct Agg
   }
 };
 
+/// crash, sanitizer report and abort are one class for reproduction purposes: a persistent worker
+/// has no stderr capture, a one-shot child has, so the fine classification may differ
+static std::string norm_cls(const Outcome & o) { return (o.cls == "crash" || o.cls == "sanitizer" || o.verdict == "crash") ? "process-death" : o.cls; }
+
 struct Suspect { std::string suite; u64 idx; Outcome o; std::vector<std::pair<std::string, u64>> hist; };
 
 struct Found { std::string prop, cls, sig, detail, replay; int ops_before, ops_after, shrink_tests; };
@@ -589,7 +593,7 @@ static int cmd_check(std::map<std::string, std::string> & args)
     Plan plan = s->gen(seed, sp.idx, ctx);
     double to = std::max(run_timeout, 5.0);
     Outcome a = run_fresh(plan, ctx, to), b = run_fresh(plan, ctx, to);
-    bool repro = a.violated() && b.violated() && a.cls == b.cls && a.trace == b.trace && a.cls == sp.o.cls;
+    bool repro = a.violated() && b.violated() && a.cls == b.cls && a.sig == b.sig && a.trace == b.trace && norm_cls(a) == norm_cls(sp.o);
     if (!repro && !sp.hist.empty() && !(a.violated() || b.violated())) {
       // the verdict may depend on process-wide state left by the runs this worker executed before:
       // replay its whole history in a fresh process in front of the suspect
@@ -597,7 +601,7 @@ static int cmd_check(std::map<std::string, std::string> & args)
       for (auto & h : sp.hist) { const Suite * hs = find_suite(h.first); if (hs) bundle.pre.push_back(hs->gen(seed, h.second, ctx)); }
       double to2 = to + 0.02 * (double)bundle.pre.size() + 30;
       Outcome a2 = run_fresh(bundle, ctx, to2), b2 = run_fresh(bundle, ctx, to2);
-      if (a2.violated() && b2.violated() && a2.cls == b2.cls && a2.trace == b2.trace && a2.cls == sp.o.cls) {
+      if (a2.violated() && b2.violated() && a2.cls == b2.cls && a2.trace == b2.trace && norm_cls(a2) == norm_cls(sp.o)) {
         printf("note: suspect %s#%llu reproduces only after the %zu runs its worker executed before it (process-wide state); shrinking the prelude\n",
                sp.suite.c_str(), (unsigned long long)sp.idx, bundle.pre.size());
         plan = bundle; a = a2; b = b2; repro = true; to = to2;
